@@ -38,6 +38,7 @@ type specEnv struct {
 	errs *[]string
 	depth int
 	preferLocals bool
+	atLi *loopInfo // innermost loop around the point of an at-clause (for athead)
 	visMode string
 	inlineSpecs bool
 }
@@ -383,6 +384,21 @@ func (e *specEnv) call(x *ast.CallExpr) specVal {
 	case "old":
 		n := *e
 		n.st = e.old
+		return n.eval(x.Args[0])
+	case "athead":
+		// value of the expression at the head of the innermost enclosing loop, in this iteration
+		li := e.li
+		if li == nil {
+			li = e.atLi
+		}
+		if li == nil || li.headSt == nil || e.a == nil || len(x.Args) != 1 {
+			e.errf("athead() outside a loop (li=%v atLi=%v a=%v)", e.li != nil, e.atLi != nil, e.a != nil)
+			break
+		}
+		n := *e
+		n.st = li.headSt
+		n.li = li
+		n.preferLocals = false
 		return n.eval(x.Args[0])
 	case "atentry":
 		// value of the expression when the enclosing loop was entered
@@ -1021,10 +1037,8 @@ func (a *Act) lookupLocalVar(e *specEnv, name string) (specVal, bool) {
 			bestAl = al
 		}
 	}
-	if bestAl != nil {
-		lv := a.lvs[bestAl]
-		return specVal{a.load(e.st, lv), lv.typ}, true
-	}
+	// (an address-taken variable competes with later plain definitions of the same name: the
+	// innermost declaration on the way to the point of interest wins; decided below)
 	// debug references: last definition of the name that is already translated and
 	// dominates the point of interest
 	var best ssa.Value
@@ -1101,6 +1115,17 @@ func (a *Act) lookupLocalVar(e *specEnv, name string) (specVal, bool) {
 			if best == nil || laterPoint(b, -1, bestBlock, bestIdx) {
 				best, bestBlock, bestIdx = phi, b, -1
 			}
+		}
+	}
+	if bestAl != nil {
+		// the alloc is the variable unless a plain (SSA-register) variable of the same name is
+		// declared or assigned later on the way here
+		if best == nil || !laterPoint(bestBlock, bestIdx, bestAl.Block(), instrIndex(bestAl)) {
+			lv := a.lvs[bestAl]
+			return specVal{a.load(e.st, lv), lv.typ}, true
+		}
+		if _, isConst := best.(*ssa.Const); isConst {
+			// a zero-value declaration of a shadowing variable: fall through to the search below
 		}
 	}
 	if _, isConst := best.(*ssa.Const); best == nil || isConst {
